@@ -199,6 +199,18 @@ func genDocs(o docOpts, emit func(docCase) bool) {
 	if o.StrLen > 0 {
 		stringsUpTo(o.StrLen, func(s string) bool {
 			ok = wrapContexts(spec.S(s), true, emit, "string")
+			if ok && len(s) > 0 {
+				// the string as a KEY in front of every kind of value (what follows a key decides which code stores it),
+				// as first and as second member, also one level down
+				for _, val := range []*spec.V{spec.S(s), spec.NilV, spec.F(0.5), spec.L(), spec.L(spec.I(1), spec.S(s)), spec.O(), spec.O(spec.P(s, spec.L()))} {
+					if !emit(docCase{spec.O(spec.P(s, val)), "string/key-before-" + val.K.String()}) ||
+						!emit(docCase{spec.O(spec.P("first member", spec.I(0)), spec.P(s, val)), "string/second-key-before-" + val.K.String()}) ||
+						!emit(docCase{spec.L(spec.O(spec.P(s, val))), "string/nested-key-before-" + val.K.String()}) {
+						ok = false
+						break
+					}
+				}
+			}
 			return ok
 		})
 		if !ok {
